@@ -31,6 +31,7 @@ UNITS = {
     'heap': {'rlimit': 50, 'timeout': 120},
     'optrace': {'rlimit': 50, 'timeout': 120},
     'difftrace': {'rlimit': 50, 'timeout': 120},
+    'compose': {'rlimit': 50, 'timeout': 120},
 }
 
 PROPS = {
@@ -52,7 +53,7 @@ PROPS = {
         'assumptions': ['determinism scan is syntactic', 'extend_stream not decided', 'processes / threads: not applicable'],
     },
     'C01': {
-        'units': ['builder', 'encode', 'layout', 'decode', 'registry', 'bytesio', 'cw', 'stream', 'open'],
+        'units': ['builder', 'encode', 'layout', 'decode', 'registry', 'bytesio', 'cw', 'stream', 'open', 'compose'],
         'kani': ['read_le','unpack_le','to_le_bytes_spec','pack_roundtrip','common_tables','find_input_scan','seek_position'],
         'own': {'stream': r'StreamWithState::(new|seek_min|next_with)|Stream::|impl&%\\d+::(next|into_stream)|Output::',
                 'open': r'Fst::(new|len|is_empty|as_ref)|FstRef::(len|is_empty)|Map::|Set::', 'cw': r'.', 'registry': r'.'},
@@ -86,7 +87,7 @@ PROPS = {
         'assumptions': [],
     },
     'C02': {
-        'units': ['reader', 'decode', 'builder', 'encode', 'bytesio', 'cw', 'layout'],
+        'units': ['reader', 'decode', 'builder', 'encode', 'bytesio', 'cw', 'layout', 'compose'],
         'kani': ['read_le','unpack_le','common_tables','find_input_scan'],
         'level_text': 'Proof: FstRef::get / contains_key (real bodies) and the Fst / Map / Set wrappers are verified to return exactly '
                       'lookup(root, key) over the decoded graph for every probe of every length (absent keys, prefixes, extensions, '
@@ -136,7 +137,7 @@ PROPS = {
         'assumptions': ['minimality / trie bound / corpus sharing ratio: not expressible as function contracts (DESIGN.md section 10)'],
     },
     'C03': {
-        'units': ['stream', 'decode', 'builder', 'encode', 'bytesio', 'cw', 'layout'],
+        'units': ['stream', 'decode', 'builder', 'encode', 'bytesio', 'cw', 'layout', 'compose'],
         'kani': ['seek_position'],
         'own': {'stream': r'.'},
         'level_text': 'Proof: StreamWithState::seek_min and next_with (real bodies) are verified against the depth-first listing of the '
@@ -151,7 +152,7 @@ PROPS = {
         'assumptions': [],
     },
     'C04': {
-        'units': ['stream', 'automaton', 'decode', 'builder', 'encode', 'bytesio', 'cw', 'layout'],
+        'units': ['stream', 'automaton', 'decode', 'builder', 'encode', 'bytesio', 'cw', 'layout', 'compose'],
         'kani': ['seek_position'],
         'own': {'stream': r'.', 'automaton': r'.'},
         'level_text': 'Proof: the stream contracts of C03 are stated for an arbitrary A: Automaton of which only the trait contract of C18 '
